@@ -18,6 +18,11 @@ func DCert(l *pki.Leaf) dtlcp.Certificate {
 	return dtlcp.Certificate{Certificate: [][]byte{l.DER}, PrivateKey: l.Key}
 }
 
+// honestRTO: the in-memory datagram pipe is lossless, so no honest handshake ever needs a
+// retransmission; a short timer would only let a loaded machine trigger one (and with it the
+// known retransmission findings F11/K1 of C19). Drivers that study retransmission set their own.
+const honestRTO = 5 * time.Second
+
 // TServer / TClient are honest default configurations (verifying client, no client auth).
 func TServer() *tlcp.Config {
 	s := pki.Std()
@@ -30,12 +35,12 @@ func TClient() *tlcp.Config {
 func DServer() *dtlcp.Config {
 	s := pki.Std()
 	return &dtlcp.Config{Certificates: []dtlcp.Certificate{DCert(s.SrvSig), DCert(s.SrvEnc)}, Time: pki.NowFn,
-		InitialRetransmitTimeout: 200 * time.Millisecond}
+		InitialRetransmitTimeout: honestRTO, MaxRetransmitTimeout: 2 * honestRTO}
 }
 func DClient() *dtlcp.Config {
 	s := pki.Std()
 	return &dtlcp.Config{RootCAs: s.Root.Pool, ServerName: "test.example", Time: pki.NowFn,
-		InitialRetransmitTimeout: 200 * time.Millisecond}
+		InitialRetransmitTimeout: honestRTO, MaxRetransmitTimeout: 2 * honestRTO}
 }
 
 // Result of running both handshakes concurrently.
